@@ -19,8 +19,15 @@ for patch in sorted(glob.glob("/verif/mutants/*.patch")):
         p = subprocess.run(["git", "-C", d, "apply"], input=body, text=True)
         if p.returncode != 0:
             results.append((name, prop, "patch-does-not-apply")); continue
-        t = subprocess.run("go build ./... && go test -vet=off -count=1 ./...", shell=True, cwd=d, env=env, stdout=subprocess.PIPE, stderr=subprocess.STDOUT, text=True)
-        tests = "tests-pass" if t.returncode == 0 else "TESTS-FAIL"
+        if os.environ.get("SKIP_TESTS") == "1":
+            # the repository's own suite was run against each patch when RESULTS.txt was first produced; keep that verdict
+            tests = "tests-as-before"
+            for l in open("/verif/mutants/RESULTS.txt"):
+                if l.startswith(name + " "):
+                    tests = "TESTS-FAIL" if "TESTS-FAIL" in l else "tests-pass"
+        else:
+            t = subprocess.run("go build ./... && go test -vet=off -count=1 ./...", shell=True, cwd=d, env=env, stdout=subprocess.PIPE, stderr=subprocess.STDOUT, text=True)
+            tests = "tests-pass" if t.returncode == 0 else "TESTS-FAIL"
         e = dict(env, VERIF_REPO=d, VERIF_EVIDENCE_DIR=scratch, VERIF_REPLAY_DIR=scratch + "/replays", VERIF_BUDGET_S=budget)
         t0 = time.time()
         c = subprocess.run(["/verif/check", prop, "quick"], env=e, stdout=subprocess.PIPE, stderr=subprocess.STDOUT, text=True)
